@@ -1,8 +1,9 @@
 (* Proofs/C10_script.v — C10, part 1: every model computation inspects the random script only
    through [next_draw] ("locality"), hence its result is determined by the prefix of the script
    it consumes; a computation that consumed nothing gives the same answer from every state.
-   Part 2 (no recorded tiebreak => no draw, for every deterministic rule) is in C10_quiet.v-like
-   sections further down this file. *)
+   Every model computation, up to [run_rule] of every rule, is shown local.
+   Part 2 (no recorded tiebreak => no draw, for every deterministic rule) is in C10_quiet.v,
+   parts 3-4 (meaning of a recorded tiebreak) in C10_tiebreak.v. *)
 From VK Require Import Base Core STV Pairwise Rules.
 From VK.Spec Require Import ScoreSpec TieSpec.
 From VK.Proofs Require Import Lib_sets Elect.
